@@ -55,14 +55,22 @@ def run_case(ctx, i, rng):
     feat = wfgen.Features(max_tasks=5, min_final=3, max_final=5,
                           optional_outputs=False, custom_outputs=False,
                           runahead=['P1', 'P2', 'P4', None])
+    kind = ['cycle_point', 'task', 'clean', 'now'][i % 4]
+    loose = kind == 'task' and rng.random() < 0.4
+    if loose:
+        # stop-task cases also with custom outputs and jobs that succeed
+        # without a required output (the stop task may finish incomplete)
+        feat = wfgen.Features(max_tasks=5, min_final=3, max_final=5,
+                              optional_outputs=False, custom_outputs=True,
+                              runahead=['P1', 'P2', 'P4', None])
     gt = wfgen.gen_workflow(rng, feat)
-    case = runner.build_case(rng, gt, 'all-complete', hostile=0.2)
+    case = runner.build_case(rng, gt, 'mixed' if loose else 'all-complete',
+                             hostile=0.2)
     model = gtmodel.closure(case)
-    if model['stuck'] or model['incomplete']:
+    if (model['stuck'] or model['incomplete']) and not loose:
         ctx.evaluated(('discard-stuck', i), nontrivial=False)
         ctx.count('discard_model_stuck')
         return
-    kind = ['cycle_point', 'task', 'clean', 'now'][i % 4]
     at = rng.randint(1, 12)
     detail = {'flow': gt['flow_text'], 'kind': kind, 'at': at}
     ctx.count(f'kind:{kind}')
@@ -156,7 +164,10 @@ def run_case(ctx, i, rng):
                    for r in results)
         ran_all = {f'{q}/{m}' for m, q in model['run']} <= {
             k.rsplit('/', 1)[0] for k in jobs}
-        if auto and not succeeded and not ran_all:
+        if auto and not succeeded and not ran_all and not loose:
+            # (with failing jobs the run may legitimately end without the
+            # stop task ever becoming runnable: only judged for all-complete
+            # plans, where "everything ran" is known)
             ctx.violation('C43:stopped-before-stop-task-succeeded',
                           f'stop task {tid}: automatic shutdown although it '
                           'has not succeeded', dict(detail, jobs=jobs))
